@@ -1,5 +1,5 @@
 from ..framework import Spec
-from ..ties_sys import sys_tie, fault_sweep_tie, scenario_tie
+from ..ties_sys import sys_tie, fault_sweep_tie, scenario_tie, layout_scenario_tie
 from ..scenarios import gen_cond_scenario, gen_label_scenario
 from ..ties_layout import labels_tie
 
@@ -8,5 +8,6 @@ SPEC = Spec(pid='C06', coq_needs=['Base', 'Program', 'ProgramProofs', 'LayoutTie
                   # label regions and conditional assembly: only a selected non-local label opens a region
                   scenario_tie('cond_programs', gen_cond_scenario, 150, 3000),
                   scenario_tie('label_regions', gen_label_scenario, 100, 2000),
+                  layout_scenario_tie('label_lines', gen_label_scenario, 100, 2000),
                   fault_sweep_tie(['undef_ref', 'register_ref', 'local_no_region', 'dup_label', 'keyword_label', 'cross_region', 'cross_file',
                                    'includer_file_label', 'const_fwd'])])
